@@ -1,3 +1,159 @@
 import Nv.OracleIO
-/-! oracle_c13 — stub (model not built yet): answers `bad-op` to every line. -/
-def main : IO Unit := Nv.oracleMain (fun (_ : Unit) _ => ((), "bad-op")) ()
+import Nv.Model.C13
+import Nv.Gen.C12
+import Nv.Gen.C13
+/-!
+oracle_c13 — line protocol (one queue per script; the first line creates it). Every line is one *event*: an atomic
+step of the transition system followed by resuming woken consumers until nobody is woken (quiescence).
+  `new q|async|mux <cap>` | `new mq <ctrlCap> <reqCap>` | `new syncq` | `new priq <cap>` → `ok`
+  list queues: `pop` `popany` (a NEW blocking consumer) → `ret:<r>` | `parked`
+               `add x` `prior x` `addc x` `priorc x` `close` `tryclose` `tryclear` `trypop` → `<result>`
+  priq:        `push x p` `pop` `len` → `<result>`;  `recv` → `got` | `empty`;  `waitlen` → `0` | `1`;
+               `consume` (a NEW consumer: receive from WaitCh, then Pop) → `ret:<r>` | `parked`
+every answer is followed by ` ret=[<sorted results of the OTHER consumers that returned during the event>] parked=<n>`.
+Which waiter a Signal wakes / which woken consumer wins is not observable in this output (multisets and counts).
+Configuration: `Nv.Gen.C13.cfg` (wake primitives) and `Nv.Gen.C12.cfg` (shapes), both regenerated from the source.
+-/
+open Nv Nv.C12 Nv.C13
+
+inductive St
+  | none
+  | lq (P : Par) (s : CS) (next : Nat)
+  | pq (s : PS) (waiters : Nat)
+
+def showOut : Out → String
+  | .ok => "ok" | .closed => "closed" | .full => "full" | .ctrlFull => "ctrl-full"
+  | .val x => s!"v:{x}" | .nil => "nil" | .none => "none" | .wouldBlock => "would-block"
+  | .bool b => if b then "true" else "false" | .num n => s!"{n}" | .badOp => "bad-op"
+
+def insertS (x : String) : List String → List String
+  | [] => [x]
+  | y :: r => if x < y then x :: y :: r else y :: insertS x r
+def sortS (l : List String) : List String := l.foldr insertS []
+
+def suffix (rets : List String) (parked : Nat) : String :=
+  " ret=[" ++ ",".intercalate (sortS rets) ++ "] parked=" ++ toString parked
+
+def parseKind (s : String) : Option Kind :=
+  if s == "q" then some .q else if s == "async" then some .async else if s == "mux" then some .mux else none
+
+def mkPar (k : Kind) : Par := ⟨k, Nv.Gen.C12.cfg.shape k, Nv.Gen.C12.cfg.syncq, Nv.Gen.C13.cfg.wake k⟩
+
+def firstParked (s : CS) : Tid := match s.parked with | e :: _ => e.1 | [] => 0
+
+/-- run one producer-side event: step, then settle; answer with the results of consumers that returned -/
+def lqEvent (P : Par) (s : CS) (next : Nat) (a : Act) (res : String) : St × String :=
+  match Nv.C13.step P s a with
+  | none => (.lq P s next, "bad-op")
+  | some s1 =>
+    let s2 := settle P s1.woken.length s1
+    let newDone := s2.done.take (s2.done.length - s.done.length)
+    (.lq P s2 next, res ++ suffix (newDone.map (fun d => showOut d.2)) s2.parked.length)
+
+def lqLine (P : Par) (s : CS) (next : Nat) (ws : List String) : St × String :=
+  let w := firstParked s
+  match ws with
+  | ["pop"] | ["popany"] =>
+    let anyway := ws == ["popany"]
+    match Nv.C13.step P s (.popCall next anyway) with
+    | none => (.lq P s next, "bad-op")
+    | some s1 =>
+      let r := match s1.done with
+        | (t, o) :: _ => if t == next then "ret:" ++ showOut o else "parked"
+        | [] => "parked"
+      (.lq P s1 (next + 1), r ++ suffix [] s1.parked.length)
+  | ["add", x] => match parseNat? x with
+    | some x =>
+      let res := if P.kind == .syncq then "ok" else showOut (addReq P.sh s.q x).2
+      lqEvent P s next (.add x w) res
+    | none => (.lq P s next, "bad-op")
+  | ["prior", x] => match parseNat? x with
+    | some x => lqEvent P s next (.prior x w) (showOut (addPrior P.sh s.q x).2)
+    | none => (.lq P s next, "bad-op")
+  | ["addc", x] => match parseNat? x with
+    | some x => lqEvent P s next (.addCtrl x w) (showOut (addCtrl P.sh s.q x).2)
+    | none => (.lq P s next, "bad-op")
+  | ["priorc", x] => match parseNat? x with
+    | some x => lqEvent P s next (.priorCtrl x w) (showOut (addPriorCtrl P.sh s.q x).2)
+    | none => (.lq P s next, "bad-op")
+  | ["close"] => lqEvent P s next (.close w) "ok"
+  | ["tryclose"] => lqEvent P s next (.tryClose w) (showOut (tryClose s.q).2)
+  | ["tryclear"] => lqEvent P s next .tryClear (showOut (tryClear s.q).2)
+  | ["trypop"] => lqEvent P s next .tryPop (showOut (syncTryPop P.ssh s.q).2)
+  | _ => (.lq P s next, "bad-op")
+
+/-! priq -/
+
+def popMacro (sh : PriShape) (pc : PriCfg) (s : PS) (holder : Bool) : PS × String :=
+  match pstepC sh pc s (.popLock holder) with
+  | none => (s, "bad-op")
+  | some s1 =>
+    let r := match (pqPop sh s.q).2 with
+      | some m => s!"v:{m.item}"
+      | none => "nil"
+    match pstepC sh pc s1 .popSignal with
+    | some s2 => (s2, r)
+    | none => (s1, r)
+
+/-- parked consumers proceed while the channel is readable: receive, Pop, re-signal -/
+def serve (sh : PriShape) (pc : PriCfg) : Nat → PS → Nat → List String → PS × Nat × List String
+  | 0, s, w, acc => (s, w, acc)
+  | n + 1, s, w, acc =>
+    if w = 0 then (s, w, acc) else
+    match pstepC sh pc s .recv with
+    | none => (s, w, acc)
+    | some s1 =>
+      let r := popMacro sh pc s1 true
+      serve sh pc n r.1 (w - 1) (r.2 :: acc)
+
+def pqFinish (sh : PriShape) (pc : PriCfg) (s : PS) (w : Nat) (res : String) : St × String :=
+  let r := serve sh pc w s w []
+  (.pq r.1 r.2.1, res ++ suffix r.2.2 r.2.1)
+
+def pqLine (s : PS) (w : Nat) (ws : List String) : St × String :=
+  let sh := Nv.Gen.C12.cfg.priq
+  let pc := Nv.Gen.C13.cfg.priq
+  match ws with
+  | ["push", x, p] => match parseNat? x, parseInt? p with
+    | some x, some p =>
+      match pstepC sh pc s (.pushLock x p) with
+      | none => (.pq s w, "bad-op")
+      | some s1 =>
+        let res := showOut (pqPush sh s.q x p).2
+        let s2 := match pstepC sh pc s1 .pushSignal with | some s2 => s2 | none => s1
+        pqFinish sh pc s2 w res
+    | _, _ => (.pq s w, "bad-op")
+  | ["pop"] =>
+    let r := popMacro sh pc s (decide (0 < s.holders))
+    pqFinish sh pc r.1 w r.2
+  | ["recv"] => match pstepC sh pc s .recv with
+    | some s1 => pqFinish sh pc s1 w "got"
+    | none => pqFinish sh pc s w "empty"
+  | ["waitlen"] => pqFinish sh pc s w (if s.token then "1" else "0")
+  | ["len"] => pqFinish sh pc s w (toString s.q.entries.length)
+  | ["consume"] => match pstepC sh pc s .recv with
+    | some s1 =>
+      let r := popMacro sh pc s1 true
+      pqFinish sh pc r.1 w ("ret:" ++ r.2)
+    | none => (.pq s (w + 1), "parked" ++ suffix [] (w + 1))
+  | _ => (.pq s w, "bad-op")
+
+def step (st : St) (line : String) : St × String :=
+  match words line with
+  | ["new", "mq", a, b] => match parseInt? a, parseInt? b with
+    | some a, some b => (.lq (mkPar .mq) (CS.init (LQ.new .mq a b)) 1, "ok")
+    | _, _ => (.none, "bad-op")
+  | ["new", "syncq"] => (.lq (mkPar .syncq) (CS.init (LQ.new .syncq 0 0)) 1, "ok")
+  | ["new", "priq", a] => match parseInt? a with
+    | some a => (.pq (PS.init a) 0, "ok")
+    | none => (.none, "bad-op")
+  | ["new", k, a] => match parseKind k, parseInt? a with
+    | some k, some a => (.lq (mkPar k) (CS.init (LQ.new k 0 a)) 1, "ok")
+    | _, _ => (.none, "bad-op")
+  | "new" :: _ => (.none, "bad-op")
+  | ws => match st with
+    | .none => (st, "bad-op")
+    | .lq P s next => lqLine P s next ws
+    | .pq s w => pqLine s w ws
+
+def main : IO Unit := oracleMain step St.none
